@@ -193,12 +193,14 @@ Definition erow_eqb (a b : erow) : bool :=
 Definition put_ndel (t : ndel) (l : list ndel) : list ndel :=
   filter (fun d => negb (N.eqb (nd_room d) (nd_room t) && Z.eqb (nd_date d) (nd_date t) &&
                          N.eqb (nd_id d) (nd_id t) && N.eqb (nd_ent d) (nd_ent t))) l ++ [t].
-(* INSERT OR REPLACE, PRIMARY KEY(room_id, deletion_date, src, label, dest) *)
+(* INSERT OR REPLACE, PRIMARY KEY(room_id, deletion_date, src, label, dest) — no source entity *)
+Definition edel_pk (t d : edel) : bool :=
+  N.eqb (ed_room d) (ed_room t) && Z.eqb (ed_date d) (ed_date t) &&
+  N.eqb (e_src (ed_edge d)) (e_src (ed_edge t)) &&
+  N.eqb (e_label (ed_edge d)) (e_label (ed_edge t)) &&
+  N.eqb (e_dest (ed_edge d)) (e_dest (ed_edge t)).
 Definition put_edel (t : edel) (l : list edel) : list edel :=
-  filter (fun d => negb (N.eqb (ed_room d) (ed_room t) && Z.eqb (ed_date d) (ed_date t) &&
-                         N.eqb (e_src (ed_edge d)) (e_src (ed_edge t)) &&
-                         N.eqb (e_label (ed_edge d)) (e_label (ed_edge t)) &&
-                         N.eqb (e_dest (ed_edge d)) (e_dest (ed_edge t)))) l ++ [t].
+  filter (fun d => negb (edel_pk t d)) l ++ [t].
 Definition room_mark (r : option N) (e : N) (d : Z) : list lkey :=
   match r with Some x => [(x, e, day d)] | None => [] end.
 
@@ -233,12 +235,13 @@ Definition sdel_node1 (acc : state * list lkey) (t : ndel) : state * list lkey :
   (set_tables s (filter (fun n => negb (hit n)) (nodes s)) (put_ndel t (ndels s)) (edels s) (edges s),
    ms ++ map (fun n => (nd_room t, n_ent n, day (n_mdate n))) (filter hit (nodes s))
       ++ [(nd_room t, nd_ent t, day (nd_date t)); (nd_room t, nd_ent t, day (nd_mdate t))]).
-(* EdgeDeletionEntry::delete_all *)
+(* EdgeDeletionEntry::delete_all: the day of an entry that is replaced (possibly recorded under
+   another source entity: de0967d) and the day of the new entry are marked *)
 Definition sdel_edge1 (acc : state * list lkey) (t : edel) : state * list lkey :=
   let '(s, ms) := acc in
   (set_tables s (nodes s) (ndels s) (put_edel t (edels s))
               (filter (fun e => negb (erow_eqb e (ed_edge t))) (edges s)),
-   ms ++ [(ed_room t, e_ent (ed_edge t), day (ed_date t))]).
+   ms ++ map edel_key (filter (edel_pk t) (edels s)) ++ [(ed_room t, e_ent (ed_edge t), day (ed_date t))]).
 
 (* table effects of one write message and the keys it passes to set_need_update *)
 Definition exec_op (o : op) (s : state) : state * list lkey :=
